@@ -336,6 +336,9 @@ def family_iter(fam, params):
     elif fam == "cc_flags":
         for e in exprgen.fam_cc_flags(*params):
             yield e
+    elif fam == "flag_names":
+        for e in exprgen.fam_flag_names(*params):
+            yield e
     elif fam == "ext_cmp":
         for e in exprgen.fam_ext_cmp(*params):
             yield e
@@ -374,6 +377,7 @@ def families(tier):
         out += _split("d2spine", ((1, 2, 3), 3, True, 2), 8)
         out += [
             ("cc_flags", ((1, 2), 2), 8),
+            ("flag_names", ((1, 2, 8),), 4),
             ("ext_cmp", ((1, 2, 3, 4),), 8),
             ("compose", ((1, 2, 3),), 4),
             ("shift_rot", ((2, 3),), 4),
@@ -393,6 +397,7 @@ def families(tier):
     out += _split("d2pairs", ((1, 2, 3), 3, 2), 16)
     out += [
         ("cc_flags", ((1, 2, 3), 2), 16),
+        ("flag_names", ((1, 2, 3, 8, 32),), 8),
         ("ext_cmp", ((1, 2, 3, 4, 5, 6, 8),), 16),
         ("compose", ((1, 2, 3, 4),), 16),
         ("shift_rot", ((2, 3, 4, 5, 8),), 16),
